@@ -82,7 +82,8 @@ PROPS["C01"] = {
     "model_is_spec": ['eval', 'enum'],
     "lean_module": "LispModel.Props.C01",
     "engines": [{"name": "eval", "quick": 6000, "thorough": 120000},
-                {"name": "enum", "quick": 60000, "thorough": 400000, "deterministic": True}],
+                {"name": "enum", "quick": 60000, "thorough": 400000, "deterministic": True},
+                {"name": "envalg", "quick": 3000, "thorough": 60000}],
     "ignore_spec": {},
     "technique": "Lean 4 theorems (evaluation laws of the implementation-shaped evaluator model) + differential correspondence on typed random programs",
     "level_text": "Kernel-checked evaluation laws (one per clause of the language definition: scoping, sequential let, def, closures, truthiness, "
@@ -154,7 +155,9 @@ PROPS["C12"] = {
 PROPS["C13"] = {
     "model_is_spec": ['coll'],
     "lean_module": "LispModel.Props.C13",
-    "engines": [{"name": "coll", "quick": 8000, "thorough": 200000}],
+    "engines": [{"name": "coll", "quick": 8000, "thorough": 200000},
+                {"name": "tyctor", "quick": 3000, "thorough": 60000},
+                {"name": "arith", "quick": 3000, "thorough": 60000}],
     "technique": "Lean 4 algebraic laws of the pure builtin model (sequence / map / set model) + differential correspondence on generated calls and compositions",
     "level_text": "The builtins are modelled as pure functions on immutable values (Core.lean) and shown to satisfy the sequence/map/set laws; the model is "
                   "compared with the real builtins (through the reflective binder) on generated argument tuples incl. nil, empty, negative and out-of-range indices.",
@@ -285,7 +288,8 @@ PROPS["C17"] = {
 }
 PROPS["C19"] = {
     "lean_module": "LispModel.Props.C19",
-    "engines": [{"name": "routes", "quick": 2500, "thorough": 40000}],
+    "engines": [{"name": "routes", "quick": 2500, "thorough": 40000},
+                {"name": "lnot", "quick": 3000, "thorough": 60000}],
     "technique": "Lean 4 theorems (evaluation commutes with every cursor map, layout gaps are invisible to the scanner, do creates no scope, load-file wrapper) + differential run of one program over seven delivery routes and random layouts",
     "level_text": "Theorems: the whole evaluator block commutes with erasing (or changing) source positions — values, payloads, effects and store are equal, only "
                   "error positions differ; whitespace and comments between tokens do not change the token sequence; `do` evaluates its forms in the same scope; "
